@@ -222,11 +222,11 @@ func (p *Path) isTarget(fn *ssa.Function) bool {
 	if pkg == nil {
 		// synthetic wrapper / bound method / thunk: look at what it wraps
 		if fn.Object() != nil && fn.Object().Pkg() != nil {
-			return p.E.TargetPaths[fn.Object().Pkg().Path()] || p.E.Transparent[fnKey(fn)]
+			return p.E.isTargetPath(fn.Object().Pkg().Path()) || p.E.Transparent[fnKey(fn)]
 		}
 		return true
 	}
-	if p.E.TargetPaths[pkg.Pkg.Path()] {
+	if p.E.isTargetPath(pkg.Pkg.Path()) {
 		return true
 	}
 	return p.E.Transparent[fnKey(fn)]
@@ -420,7 +420,7 @@ func (p *Path) global(g *ssa.Global) *Object {
 	// foreign or not-yet-initialised global
 	elem := g.Type().(*types.Pointer).Elem()
 	var v Value
-	if g.Pkg != nil && !p.E.TargetPaths[g.Pkg.Pkg.Path()] {
+	if g.Pkg != nil && !p.E.isTargetPath(g.Pkg.Pkg.Path()) {
 		v = p.foreignGlobal(g)
 	} else {
 		v = p.zero(elem)
@@ -437,6 +437,8 @@ func (p *Path) foreignGlobal(g *ssa.Global) Value {
 	switch name {
 	case "io.EOF", "io.ErrUnexpectedEOF", "net/http.ErrBodyNotAllowed", "context.Canceled", "os.ErrNotExist", "io/fs.ErrNotExist":
 		return p.sentinelErr(name)
+	case "net/http.NoBody":
+		return p.mkReader(StrV{})
 	case "os.Stderr", "os.Stdout":
 		return PtrV{Obj: p.newObj(nil, StructV{}), Type: g.Type().(*types.Pointer).Elem()}
 	}
@@ -879,4 +881,16 @@ func (p *Path) lookupMethod(T types.Type, pkg *types.Package, name string) *ssa.
 		return nil
 	}
 	return p.E.Prog.MethodValue(sel)
+}
+
+func (e *Engine) isTargetPath(path string) bool {
+	if e.TargetPaths[path] {
+		return true
+	}
+	for _, pre := range e.TargetPrefixes {
+		if strings.HasPrefix(path, pre) {
+			return true
+		}
+	}
+	return false
 }
